@@ -11,5 +11,5 @@ REAL_VS_STUB = {
 HARNESS_INFO = {}
 
 PROPS = {
-    "C04": {"mode": "C04", "harnesses": ["queues_ms"], "variants": ["P", "T"], "quick_s": 20, "thorough_s": 600},
+    "C04": {"mode": "C04", "harnesses": ["queues_ms", "queues_ram", "queues_nik"], "variants": ["P", "T"], "quick_s": 20, "thorough_s": 600},
 }
